@@ -34,6 +34,7 @@ Rules (identity (rule, function, key); key = <alphabet>:<clause>; every instance
   R-STREAM:corrupted   one byte of a well-formed frame replaced by a byte of every class, then good frame(s)
   R-STREAM:overlong    capacities 2..5, a well-formed frame whose content is 1..3 bytes longer than capacity-1, then good
                        frame(s) that fit
+                       (the three fault families both on a receiver fresh from init and behind one delivered good frame)
   clauses: the (first, resp. at the latest the second) good frame returns NEWPACKAGE exactly on its last byte with size() and
   content equal to the payload symbol by symbol; a NEWPACKAGE anywhere else is allowed only where the bytes since the last start
   marker carry a matching CRC on that path, and then delivers exactly those bytes; every status is the one the property names;
@@ -58,6 +59,7 @@ FAMILIES = ['prefix', 'truncated', 'corrupted', 'overlong']
 ROOMY = 8          # a capacity that no scenario exhausts
 MAX_STEPS = 40000
 
+C_D0 = 'a-good-frame-before-the-fault-is-delivered-intact-exactly-on-its-last-byte'
 C_D1 = 'first-good-frame-delivered-intact-exactly-on-its-last-byte'
 C_D1MAY = 'first-good-frame-delivered-intact-or-not-at-all'
 C_D2 = 'second-good-frame-delivered-intact-exactly-on-its-last-byte'
@@ -605,6 +607,14 @@ class Node:
         self.edges = []
 
 
+def limits(tier, A):
+    """(longest garbage prefix, longest payload of a good frame, longest payload of a truncated frame, of a frame with a replaced byte);
+    the symbolic alphabets get the shorter damaged frames, as in c04_roundtrip"""
+    if tier == 'thorough':
+        return (4, 3, 3, 3) if not A.symbolic else (4, 2, 3, 2)
+    return (3, 2, 2, 2) if not A.symbolic else (3, 2, 2, 1)
+
+
 class Gen:
     """stream generator of one (alphabet, capacity)"""
 
@@ -745,14 +755,30 @@ class Gen:
         g2 = self.trie([f[0] for f in self.frames('b', ns, 'good2', 'good1', 'must')], None)
         return self.trie([f[0] for f in self.frames('a', ns, 'good1', lead, 'may')], g2)
 
+    def with_lead(self, faulty):
+        """the faulty streams as they are (receiver fresh from init) and behind one good frame (receiver idle after a delivery, the
+        delivered packet still in the line)"""
+        n = min(1, self.cap - 2)
+        z = self.frame('z', ('other',) * n, 'other', 'good0', None, 'must')
+        if z is None:
+            raise Unresolved('no leading frame of payload length %d in the %s alphabet' % (n, self.A.label))
+        root = Node()
+        root.edges = list(faulty.edges) + self.trie([z[0]], faulty).edges
+        return root
+
     def lengths(self, nmax):
         """payload lengths of the good frames: every length that fits the buffer (a tight buffer: exactly the one that fills it)"""
         if self.cap >= ROOMY:
             return list(range(nmax + 1))
         return [self.cap - 2] if 0 <= self.cap - 2 <= nmax else []
 
+    def limits(self):
+        """(longest garbage prefix, longest payload of a good frame, longest payload of a truncated frame, of a frame with a replaced
+        byte)"""
+        return limits(self.tier, self.A)
+
     def family_prefix(self):
-        K, N = (4, 3) if self.tier == 'thorough' else (3, 2)
+        K, N = self.limits()[:2]
         g = self.good('prefix', self.lengths(N))
         nodes = [Node() for _ in range(K + 1)]
         for d in range(K + 1):
@@ -763,30 +789,30 @@ class Gen:
         return nodes[0]
 
     def family_truncated(self):
-        N = 3 if self.tier == 'thorough' else 2
+        _, N, NQ, _ = self.limits()
         g = self.good('faulty', self.lengths(N))
         seqs = []
-        for (bs, pv, done) in self.frames('q', range(N + 1), 'faulty'):
+        for (bs, pv, done) in self.frames('q', range(NQ + 1), 'faulty'):
             for k in range(1, len(bs)):
                 seqs.append(bs[:k])
-        return self.trie(seqs, g)
+        return self.with_lead(self.trie(seqs, g))
 
     def family_corrupted(self):
-        N = 3 if self.tier == 'thorough' else 2
+        _, N, _, NQ = self.limits()
         g = self.good('faulty', self.lengths(N))
         seqs = []
-        for (bs, pv, done) in self.frames('q', range(N + 1), 'faulty'):
+        for (bs, pv, done) in self.frames('q', range(NQ + 1), 'faulty'):
             for j in range(len(bs)):
                 for (cls, val) in self.every:
                     if val is not None and val == bs[j].v:
                         continue
                     rb = self.of_class(cls, val, 'x', 'q[%d] replaced' % j, 'faulty')
                     seqs.append(bs[:j] + [rb] + bs[j + 1:])
-        return self.trie(seqs, g)
+        return self.with_lead(self.trie(seqs, g))
 
     def family_overlong(self):
         cap = self.cap
-        N = 3 if self.tier == 'thorough' else 2
+        N = self.limits()[1]
         g = self.good('faulty', list(range(0, min(cap - 2, N) + 1)))
         seqs = []
         for over in (1, 2, 3):
@@ -800,7 +826,7 @@ class Gen:
                 bs = list(bs)
                 bs[i] = self.byte(b.v, list(b.facts), b.role, b.region, ('overflow', ()))
                 seqs.append(bs)
-        return self.trie(seqs, g)
+        return self.with_lead(self.trie(seqs, g))
 
 
 # ----------------------------------------------------------------------------------------------------------------------
@@ -939,7 +965,7 @@ class Walk:
         self.oks = {}
         self.streams = 0
         self.pathsteps = 0
-        self.deliveries_in_garbage = set()
+        self.deliveries_in_garbage = {}
         self.failures = 0
 
     # ---- book keeping -------------------------------------------------------------------------------------------------
@@ -1097,7 +1123,7 @@ class Walk:
         # deliveries
         ex = byte.expect
         if ex is not None and ex[0] in ('must', 'may'):
-            clause = {('good1', 'must'): C_D1, ('good1', 'may'): C_D1MAY, ('good2', 'must'): C_D2}[(byte.region, ex[0])]
+            clause = {('good0', 'must'): C_D0, ('good1', 'must'): C_D1, ('good1', 'may'): C_D1MAY, ('good2', 'must'): C_D2}[(byte.region, ex[0])]
             if got != NP:
                 if ex[0] == 'must':
                     self.fail(clause, Q, byte, 'the closing byte of the good frame (%s) returns %s, not NEWPACKAGE' % (byte.role, status_name(c, got)))
@@ -1116,7 +1142,7 @@ class Walk:
             else:
                 self.fail(C_O, Q, byte, 'byte %d (%s) completes content byte %d of a frame for a buffer of %d bytes (%d fit) and returns %s'
                           % (len(P.hist), byte.role, self.cap, self.cap, self.cap - 1, status_name(c, got)))
-        clause = {'prefix': C_N, 'faulty': C_F, 'good1': C_D1 if self.kind == 'differ' else C_D1MAY, 'good2': C_D2}[byte.region]
+        clause = {'prefix': C_N, 'faulty': C_F, 'good0': C_D0, 'good1': C_D1 if self.kind == 'differ' else C_D1MAY, 'good2': C_D2}[byte.region]
         if got != NP:
             self.ok(clause)
             return Q
@@ -1126,8 +1152,8 @@ class Walk:
                 self.fail(clause, Q, byte, 'NEWPACKAGE at byte %d (%s), but %s' % (len(P.hist), byte.role, bad))
             else:
                 self.ok(clause)
-                if byte.region in ('prefix', 'faulty'):
-                    self.deliveries_in_garbage.add(' '.join(h[0].role.split('=')[-1] if '=' in h[0].role else 'x' for h in Q.hist))
+                if byte.region == 'prefix':
+                    self.note_delivery(Q)
         else:
             self.fail(clause, Q, byte, 'NEWPACKAGE at byte %d (%s) although the bytes since the last start marker are no frame with a matching '
                       'CRC (reader: %s, %d unescaped byte(s) since the last start marker, residue %s)'
@@ -1135,6 +1161,23 @@ class Walk:
                                                   'skip': 'behind the point where the frame was refused'}[P.spec.mode],
                          len(P.spec.content), show(it.canon(J, P.spec.reg))))
         return Q
+
+    def note_delivery(self, Q):
+        """a garbage prefix that holds a complete frame (delivered, and rightly so): remember its shape, with a concrete example where
+        the alphabet is concrete (a shape that no bytes realise with the real CRC-8 is left out of the list)"""
+        bs = [h[0] for h in Q.hist]
+        pat = ' '.join((b.role.split('=')[-1] if '=' in b.role else ('START(of the frame)' if b.role.endswith('.START') else 'other'))
+                       for b in bs)
+        if pat in self.deliveries_in_garbage or len(self.deliveries_in_garbage) > 60:
+            return
+        ex = None
+        if not self.A.symbolic:
+            cw = Concrete(self.A)
+            syms = [s for b in bs for s in b.v.t if isinstance(s, str) and s.startswith('P.')]
+            if not cw.solve(Q.J, syms, budget=1500):
+                return
+            ex = ' '.join('%02X' % (cw.lin(b.v) & 0xff) for b in bs)
+        self.deliveries_in_garbage[pat] = ex
 
     @staticmethod
     def syms_of(facts):
@@ -1188,6 +1231,33 @@ class Walk:
         self.flush()
 
 
+def count_streams(root):
+    """number of streams (root-to-leaf paths) of a DAG"""
+    memo = {}
+    order, seen, stack = [], set(), [root]
+    while stack:
+        n = stack.pop()
+        if n.id in seen:
+            continue
+        seen.add(n.id)
+        order.append(n)
+        for (_, ch) in n.edges:
+            stack.append(ch)
+    # children before parents: process in reverse topological order by repeated passes (DAG depth is small)
+    pending = order
+    while pending:
+        rest = []
+        for n in pending:
+            if all(ch.id in memo for (_, ch) in n.edges):
+                memo[n.id] = sum(memo[ch.id] for (_, ch) in n.edges) if n.edges else 1
+            else:
+                rest.append(n)
+        if len(rest) == len(pending):
+            break
+        pending = rest
+    return memo.get(root.id, 0)
+
+
 # ----------------------------------------------------------------------------------------------------------------------
 # driver
 # ----------------------------------------------------------------------------------------------------------------------
@@ -1199,7 +1269,7 @@ def caps_of(family, tier):
         return [2, 3, 4, 5]
     if family == 'prefix':
         return [2, 3, 4, ROOMY] + ([5] if tier == 'thorough' else [])
-    return [3, ROOMY]
+    return [2, 3, ROOMY]
 
 
 def _task(t):
@@ -1207,7 +1277,7 @@ def _task(t):
     c = _CODECS[cname]
     A = c.alphabets[ai]
     bk = Book()
-    info = dict(streams=0, steps=0, pathsteps=0, configurations=0, nodes=0, garbage_deliveries=[])
+    info = dict(streams=0, steps=0, pathsteps=0, configurations=0, nodes=0, garbage_deliveries=[], logical_streams=0)
     try:
         w = Walk(c, A, cap, family, bk, tier)
         g = Gen(c, A, cap, tier, w.it, w.m.base_facts)
@@ -1215,7 +1285,7 @@ def _task(t):
         root = getattr(g, 'family_' + family)()
         w.run(root)
         info.update(streams=w.streams, steps=w.m.steps, pathsteps=w.pathsteps, configurations=len(w.m.ids), nodes=Node.count[0] - n0,
-                    garbage_deliveries=sorted(w.deliveries_in_garbage)[:40])
+                    garbage_deliveries=sorted(w.deliveries_in_garbage.items())[:40], logical_streams=count_streams(root))
     except (Unresolved, AnalysisBroken) as e:
         bk.unresolved.append('%s %s family %s capacity %d: %s' % (cname, A.label, family, cap, e))
     bk.paths = info['pathsteps']
@@ -1278,13 +1348,13 @@ def run_ext(rep, repo, tier):
                 tot = {}
                 for t, info in infos.items():
                     if t[0] == cname and c.alphabets[t[1]] is A:
-                        for k in ('streams', 'steps', 'pathsteps', 'configurations'):
+                        for k in ('logical_streams', 'steps', 'pathsteps', 'configurations'):
                             tot[k] = tot.get(k, 0) + info[k]
                 rep.inst(RULE + ':analysed', c.recv_name, '%s:every-stream-analysed-exactly' % A.label, True, c.where(c.newchar),
                          fact=dict(tot, tier=tier))
     rep.extra['c05_streams'] = {
         'tasks': len(tasks), 'wall_s': round(time.time() - t0, 2), 'crc_axiom': AXIOM,
-        'streams': sum(i['streams'] for i in infos.values()),
+        'streams': sum(i['logical_streams'] for i in infos.values()),
         'receiver_steps_interpreted': sum(i['steps'] for i in infos.values()),
         'steps_walked': sum(i['pathsteps'] for i in infos.values()),
         'unresolved': book.unresolved[:20],
@@ -1308,11 +1378,13 @@ def run_ext(rep, repo, tier):
         'clauses of R-RECV cover every length; configurations reached are finitely many and the memoised transition system is '
         'closed under the bytes offered, but the induction is not mechanised).' % (4 if tier == 'thorough' else 3,
                                                                                    3 if tier == 'thorough' else 2, AXIOM))
+    rep.extra['c05_streams']['limits(prefix,good payload,truncated payload,corrupted payload)'] = {
+        A.label: limits(tier, A) for c in codecs.values() for A in c.alphabets}
     rep.assumptions += ['igris_strmcrc8 is an uninterpreted function of (register, byte) with the axiom ' + AXIOM,
                         'stream analysis: the legacy receiver struct is zero-initialised before gstuff_autorecv_setbuf_v1; power-on '
                         'counts as a frame boundary for it (it has no idle state); its packet is line[0 .. len-1)',
                         'stream analysis, symbolic alphabets: markers and escape codes pairwise different (R-ALPHABET) and none of '
                         'them equal to the CRC seed 0xFF']
-    for fam in FAMILIES:
-        rep.floor('%s:%s' % (RULE, fam), 4 * na)
+    for fam, n in (('prefix', 4), ('truncated', 5), ('corrupted', 5), ('overlong', 6)):
+        rep.floor('%s:%s' % (RULE, fam), n * na)
     rep.floor(RULE + ':analysed', na)
